@@ -49,7 +49,7 @@ def cases(tier, seed):
     while True:
         # every second project has a distinct spelling per binding (see C01): the spelling-clash
         # classes do not apply there and every clause is judged with fine keys
-        yield {"seed": f"{seed}/C02/{i}", "pseed": seed * 1000003 + i + 500000, "unique": i % 2}
+        yield {"seed": f"{seed}/C02/{i}", "pseed": seed * 1000003 + i + 500000, "unique": i % 3}
         i += 1
 
 
@@ -113,7 +113,7 @@ def run_case(spec):
         unique = bool(spec.get("unique"))
         case.files, case.gen = pygen.generate(spec["pseed"], "binding", p_fstring=0.05, p_star_import=0.03, p_kwonly=0.1,
                                               p_varargs=0.1, p_kwargs=0.15, p_kw_like_var=0.6, p_dunder_call=0.3,
-                                              unique_names=int(unique))
+                                              unique_names=int(spec.get("unique") or 0))
         os.makedirs(case.root)
         pyrun.write_project(case.root, case.files)
         case.baseline = pyrun.behaviour(case.root, entries=("import_all.py",))
@@ -220,8 +220,12 @@ def run_case(spec):
                         label = "two-project-modules-share-their-file-name"
                     elif old in facts["bare_genexp_targets"]:
                         label = "variable-of-a-generator-expression-that-is-the-sole-unparenthesised-argument-of-a-call"
+                    elif old in facts["class_nested_scope_loads"]:
+                        label = "name-read-in-a-lambda-or-comprehension-directly-in-a-class-body"
                     elif old in facts["special_params"]:
                         label = "keyword-only-star-or-lambda-parameter"
+                    elif old in facts["fstring_names"]:
+                        label = "name-used-in-an-fstring-field"
                     elif offset in super_kwarg_offsets:
                         label = "keyword-argument-of-a-call-through-super()"
                     elif any(lo <= qline <= hi for lo, hi in special_hosts):
@@ -385,9 +389,9 @@ def run_case(spec):
 
 
 def _kwarg_has_no_parameter(files, text, offset, name, line_col):
-    """True when the keyword `name=` at `offset` is passed to a callee that is defined in the project under
-    its plain name, every such definition lacks a parameter `name`, and one of them collects **kwargs:
-    the token then has no binding and is outside the property."""
+    """True when the keyword `name=` at `offset` is passed to a callee of which a definition (found by its
+    plain name, through from-import aliases) lacks a parameter `name` and collects **kwargs: the token
+    then may have no binding at all and is outside the property."""
     import ast
     callee = None
     for n in ast.walk(ast.parse(text)):
@@ -398,6 +402,12 @@ def _kwarg_has_no_parameter(files, text, offset, name, line_col):
                     callee = f.id if isinstance(f, ast.Name) else f.attr if isinstance(f, ast.Attribute) else None
     if callee is None:
         return False
+    # a from-import alias of this module names the original function
+    for n in ast.walk(ast.parse(text)):
+        if isinstance(n, ast.ImportFrom):
+            for a in n.names:
+                if a.asname == callee:
+                    callee = a.name
     defs = []
     for p, t in files.items():
         if not p.endswith(".py"):
@@ -413,8 +423,9 @@ def _kwarg_has_no_parameter(files, text, offset, name, line_col):
                 defs += [m for m in n.body if isinstance(m, ast.FunctionDef) and m.name in ("__init__", "__call__")]
     if not defs:
         return False
-    has_param = any(name in [a.arg for a in d.args.posonlyargs + d.args.args + d.args.kwonlyargs] for d in defs)
-    return not has_param and any(d.args.kwarg for d in defs)
+    # several definitions may share the spelling: it is enough that ONE candidate collects the keyword
+    return any(d.args.kwarg and name not in [a.arg for a in d.args.posonlyargs + d.args.args + d.args.kwonlyargs]
+               for d in defs)
 
 
 def _param_owner(text, me, name):
